@@ -442,3 +442,35 @@ func longChainSpecs(prefix string) []specCase {
 	}
 	return out
 }
+
+// twoFilesProgram: two injector files in one package; the injector of the FIRST file (in file-name order) is
+// ill-formed in the given way, the one in the last file is well-formed. bad: 0 missing provider, 1 binding to a type
+// that does not implement the interface, 2 two sources for one type, 3 unused provider, 4 nothing wrong (control).
+func twoFilesProgram(bad int, swapNames bool) *ir.Program {
+	b := ir.NewBuilder()
+	p := b.Root
+	x, y, r1, r2 := b.Leaf(p, "X"), b.Leaf(p, "Y"), b.Leaf(p, "R1"), b.Leaf(p, "R2")
+	px := ir.FuncItem(&ir.Func{Pkg: p, Name: "PX", Out: x})
+	pr1 := ir.FuncItem(&ir.Func{Pkg: p, Name: "PR1", Params: []*ir.Type{x}, Out: r1})
+	first := &ir.Injector{Name: "InitFirst", Out: r1, File: "a_inject.go"}
+	switch bad {
+	case 0:
+		first.Items = []*ir.Item{pr1}
+	case 1:
+		i := b.Iface(p, "I")
+		conc := b.Leaf(p, "Conc") // implements nothing
+		first.Out = i
+		first.Items = []*ir.Item{ir.FuncItem(&ir.Func{Pkg: p, Name: "PConc", Out: conc}), ir.BindItem(i, conc)}
+	case 2:
+		first.Items = []*ir.Item{px, ir.FuncItem(&ir.Func{Pkg: p, Name: "PX2", Out: x}), pr1}
+	case 3:
+		first.Items = []*ir.Item{px, pr1, ir.FuncItem(&ir.Func{Pkg: p, Name: "PY", Out: y})}
+	default:
+		first.Items = []*ir.Item{px, pr1}
+	}
+	second := &ir.Injector{Name: "InitSecond", Out: r2, File: "b_inject.go", Items: []*ir.Item{px, ir.FuncItem(&ir.Func{Pkg: p, Name: "PR2", Params: []*ir.Type{x}, Out: r2})}}
+	if swapNames {
+		first.File, second.File = "b_inject.go", "a_inject.go" // the ill-formed one is in the last file
+	}
+	return &ir.Program{Root: p, Injectors: []*ir.Injector{first, second}}
+}
